@@ -295,6 +295,10 @@ class HybridLoad:
         else:
             peak_duration = 1.0e-6
 
+        # the extrapolation can run away when the peak response is (nearly) flat; keep the duration positive
+        # and inside the two-day window it was derived from
+        peak_duration = min(max(peak_duration, 1.0e-6), 2.0 * HRS_IN_DAY)
+
         return peak_duration, q_peak, q_nominal
 
     def find_peak_durations(self) -> None:
